@@ -216,10 +216,14 @@ class StaticUseDep(packages.PackageRestriction):
 # Which makes no sense; trace and fix.
 class _UseDepDefaultContainment(values.ContainmentMatch, caching=False):
     __slots__ = ("if_missing",)
+    # if_missing changes what is matched: (+) and (-) defaults must not compare (or hash) equal,
+    # nor be equal to a plain ContainmentMatch -- the instance cache keys parents by their children.
+    __attr_comparison__ = ("vals", "all", "negate", "if_missing")
 
     def __init__(self, if_missing: bool, vals, negate=False):
         self.if_missing = bool(if_missing)
         super().__init__(vals, negate=negate, match_all=True)
+        self._hash = hash((self._hash, self.if_missing))
 
     def match(self, val):
         reduced_vals = self.vals
